@@ -807,10 +807,14 @@ func (f *c16dConn) Read(p []byte) (int, error) {
 	if f.resp == nil {
 		f.resp = substAccept([]byte("HTTP/1.1 101 Switching Protocols\r\nUpgrade: websocket\r\nConnection: Upgrade\r\nSec-WebSocket-Accept: @@ACCEPT@@\r\n\r\n"), keyOfRequest(f.in.Bytes()))
 	}
-	if f.given >= f.k || f.given >= len(f.resp) {
+	end := f.k
+	if end > len(f.resp) {
+		end = len(f.resp)
+	}
+	if f.given >= end {
 		return 0, errTimeout
 	}
-	n := copy(p, f.resp[f.given:f.k])
+	n := copy(p, f.resp[f.given:end])
 	f.given += n
 	return n, nil
 }
